@@ -54,3 +54,23 @@ def cayley(p, q):
     K = np.array([[0, -p[2], p[1]], [p[2], 0, -p[0]], [-p[1], p[0], 0]])
     D = q * q + p.dot(p)
     return ((q * q - p.dot(p)) * np.eye(3) + 2 * np.outer(p, p) + 2 * q * K) / D
+
+
+def exact_metric_record(G, hkls, path):
+    """det G, adj G and Q*(h) with unbounded Python integers - the same formulas as IntAlg.tla (Adj, Det, QuadForm).
+    Used for lattice points whose products do not fit TLC's 32-bit integers (nearly orthogonal cells need metric entries of
+    1e5); the identities these formulas satisfy are proved for ALL integers by Apalache (spec/apalache/Identities.tla)."""
+    g11, g22, g33, g23, g13, g12 = [int(x) for x in G]
+    a11 = g22 * g33 - g23 * g23
+    a22 = g11 * g33 - g13 * g13
+    a33 = g11 * g22 - g12 * g12
+    a12 = g13 * g23 - g12 * g33
+    a13 = g12 * g23 - g13 * g22
+    a23 = g12 * g13 - g11 * g23
+    det = g11 * a11 + g12 * a12 + g13 * a13
+    adj = [a11, a22, a33, a23, a13, a12]
+    q = []
+    for h in hkls:
+        q.append([list(h), a11 * h[0] * h[0] + a22 * h[1] * h[1] + a33 * h[2] * h[2]
+                  + 2 * a23 * h[1] * h[2] + 2 * a13 * h[0] * h[2] + 2 * a12 * h[0] * h[1]])
+    return {"G": list(G), "path": list(path), "det": det, "adj": adj, "q": q}
